@@ -393,6 +393,13 @@ class ShimSocket:
             except OSError:
                 pass
             self.other = None
+        # a listening socket that is closed takes the connections still waiting in its backlog with it (the kernel
+        # resets them): they were never accepted, nobody else could close them
+        q = getattr(self, "accept_q", None)
+        while q:
+            ns, _ = q.popleft() if hasattr(q, "popleft") else q.pop(0)
+            self.h.log("backlog_reset", sock=ns.sid)
+            ns.close()
 
     def __repr__(self):
         return f"<ShimSocket {self.sid} {self.role} closed={self.closed}>"
@@ -813,10 +820,10 @@ class Harness:
         fr = sys._current_frames().get(t.ident)
         if fr is None:
             return None
-        st = [f"{os.path.basename(f.filename)}:{f.name}:{f.lineno}" for f in traceback.extract_stack(fr)[-4:]]
-        if not st or st[-1].startswith("harness.py"):
-            return None
-        return st
+        full = [f"{os.path.basename(f.filename)}:{f.name}:{f.lineno}" for f in traceback.extract_stack(fr)]
+        if not full or any(x.startswith("harness.py") for x in full):
+            return None          # inside one of the shims (select gate, socket, clock): where it belongs
+        return full[-4:]
 
     def wait_parked(self, timeout=None):
         end = real_time.time() + (timeout or self.watchdog)
